@@ -98,35 +98,80 @@ def g1(run: Run, cy: CyProgram):
                         f"their initial value")
 
 
+def _num(x):
+    """Numeric value of a constant IR expression (num, -num, casts) or None."""
+    while isinstance(x, X) and x.k == "cast":
+        x = x.a[1]
+    if isinstance(x, X) and x.k == "num":
+        return float(x.a[0])
+    if isinstance(x, X) and x.k == "un" and x.a[0] == "-":
+        v = _num(x.a[1])
+        return -v if v is not None else None
+    return None
+
+
+def _clamped_sides(body, val):
+    """(lower, upper): is the scalar local `val` clamped to >= -1 / <= 1 by an
+    if-chain (`if val > 1: val = 1`, either orientation, strict or not), by
+    min/max/fmin/fmax nests or by np.clip - whatever the spelling."""
+    lo = hi = False
+    if val is None:
+        return lo, hi
+
+    def side_of(cond):
+        # -> ("hi"|"lo", bound) when cond says val is beyond a constant bound
+        if cond.k != "cmp":
+            return None
+        op, l, r = cond.a[0], cond.a[1], cond.a[2]
+        if pp(r) == val and _num(l) is not None:
+            l, r = r, l
+            op = {"<": ">", ">": "<", "<=": ">=", ">=": "<="}.get(op, op)
+        if pp(l) != val or _num(r) is None:
+            return None
+        if op in (">", ">="):
+            return ("hi", _num(r))
+        if op in ("<", "<="):
+            return ("lo", _num(r))
+        return None
+    for s in walk(body):
+        if isinstance(s, X) and s.k == "if":
+            for cond, b in s.a[0]:
+                sd = side_of(cond)
+                if sd is None:
+                    continue
+                for st in b:
+                    if st.k == "assign" and pp(st.a[0][0]) == val and \
+                            _num(st.a[1]) == sd[1]:
+                        if sd == ("hi", 1.0):
+                            hi = True
+                        if sd == ("lo", -1.0):
+                            lo = True
+        if isinstance(s, X) and s.k == "assign" and pp(s.a[0][0]) == val:
+            for c in walk(s.a[1]):
+                if not (isinstance(c, X) and c.k == "call"):
+                    continue
+                fn = pp(c.a[0]).split(".")[-1]
+                nums = [_num(a) for a in c.a[1]]
+                if fn in ("min", "fmin", "minimum") and 1.0 in nums:
+                    hi = True
+                if fn in ("max", "fmax", "maximum") and -1.0 in nums:
+                    lo = True
+                if fn == "clip" and len(nums) >= 3 and nums[1] == -1.0 and nums[2] == 1.0:
+                    lo = hi = True
+    return lo, hi
+
+
 def g2(run: Run, prog: Program, cy: CyProgram):
     """Values reaching arccos are clamped to [-1, 1] on both sides."""
     # compiled: expr is clamped by an if/elif pair before the store
     f = cy.func("pyunicorn.core._ext.numerics", "_calculate_angular_distance")
-    src = " ".join(pp(s) for s in walk(f.body) if isinstance(s, X) and s.k == "if")
+    from .loopir import symmetric_store_report
+    outs = sorted({r[0] for r in symmetric_store_report(f.body)})
+    out = outs[0] if len(outs) == 1 else "cosangdist"
     stores = [s for s in walk(f.body) if isinstance(s, X) and s.k == "assign"
-              and any(t.k == "index" and pp(t.a[0]) == "cosangdist" for t in s.a[0])]
+              and any(t.k == "index" and pp(t.a[0]) == out for t in s.a[0])]
     val = pp(stores[0].a[1]) if stores else None
-    hi = lo = False
-    for s in walk(f.body):
-        if isinstance(s, X) and s.k == "if":
-            for cond, b in s.a[0]:
-                c = pp(cond).replace(" ", "")
-                for st in b:
-                    if st.k == "assign" and pp(st.a[0][0]) == val:
-                        if c in (f"({val}>1)", f"({val}>1.0)", f"({val}>=1)") and \
-                                pp(st.a[1]) in ("1", "1.0"):
-                            hi = True
-                        if c in (f"({val}<(-1))", f"({val}<-1)", f"({val}<(-1.0))",
-                                 f"({val}<=(-1))") and pp(st.a[1]) in ("(-1)", "-1",
-                                                                       "(-1.0)"):
-                            lo = True
-        if isinstance(s, X) and s.k == "assign" and pp(s.a[0][0]) == val and \
-                s.a[1].k == "call" and pp(s.a[1].a[0]) in ("min", "max", "fmin", "fmax"):
-            txt = pp(s.a[1]).replace(" ", "")
-            if "min(" in txt and "1" in txt:
-                hi = True
-            if "max(" in txt and "-1" in txt:
-                lo = True
+    lo, hi = _clamped_sides(f.body, val)
     for side, ok in (("upper", hi), ("lower", lo)):
         run.oblige("G2", f"_calculate_angular_distance:{side}-clamp", ok, sample={
             "where": f.where, "value": val})
